@@ -82,6 +82,21 @@ CLAIMS["C19"] = ("site guards on payouts (comparison strictness), post-payout mu
     "Thin claim: decides that reward sends sit behind sum of shares <= allocation, that a gauge epoch is paid only behind available >= epoch amount and a guarded split index, that after a payout the gauge is always stored with its remaining balance reduced by what was paid, and that the sibling valuations of farmed pool coins pick the oracle-priced side by the same pair field. NOT covered: that the split sums to the deposit, the 1e-12 floating-point bound, custody >= remainder as numbers.",
     "DESIGN.md §3 C19")
 
+
+# repository-wide rules instantiated from the code itself (generic.go, recordlink.go), scoped per property
+GENERIC = {
+    "C01": " Also (repository-wide rules scoped to the vault module): identifier-kind agreement at every keeper call, no stale copy for every Get/Set accessor pair, outside the handlers a vault is credited only by an amount moved into vault custody in the same function (auction settlement under shutdown), and records loaded under independent message ids are tied by an equality test before a coin-moving handler can succeed.",
+    "C03": " Also: records loaded under independent message ids (product and vault) are tied by an equality test, so the limits applied are those of the vault's own product.",
+    "C04": " Also (liquidity module): identifier-kind agreement at every keeper call and no stale copy for every Get/Set accessor pair.",
+    "C08": " Also (lend module): identifier-kind agreement at every keeper call, no stale copy for every Get/Set accessor pair, and borrow totals follow the change applied to the recorded principal when the function changes it.",
+    "C09": " Also (liquidation modules): identifier-kind agreement at every keeper call and no stale copy for every Get/Set accessor pair.",
+    "C10": " Also (auction modules): identifier-kind agreement at every keeper call and no stale copy for every Get/Set accessor pair.",
+    "C11": " Also (auction modules): identifier-kind agreement at every keeper call and no stale copy for every Get/Set accessor pair.",
+    "C13": " Also: identifier-kind agreement and generic stale-copy rule for locker and collector, per-asset books receive the amount of the same side (sold lot / raised asset) of the auction record as the asset id they are keyed by, and locker handlers tie the records loaded under independent message ids.",
+    "C14": " Also: the failure branch of a price/ratio helper cannot reach a success exit; every call into the esm and market keepers passes ids of the kind the callee names (the breaker is not looked up under an asset id); vault/locker/lend handlers tie the records loaded under independent message ids (the breaker's app is the position's app).",
+    "C19": " Also (rewards module): identifier-kind agreement at every keeper call.",
+}
+
 NOT_APPLICABLE = {
     "C18": "purely numeric relations between evaluations of accrual/rate functions (non-negativity, monotonicity, sub-additivity, continuity; one path through float64 math.Pow); no guard, pairing, provenance or ordering is a necessary condition of them, so no sound static argument in reach applies (DESIGN.md §3 C18, §4).",
 }
@@ -95,6 +110,7 @@ def main():
     for pid in ALL:
         if pid in CLAIMS:
             tech, text, ref = CLAIMS[pid]
+            text = text + GENERIC.get(pid, "")
             checks.append({
                 "property_id": pid,
                 "quick_cmd": "scripts/check %s quick" % pid,
